@@ -29,15 +29,24 @@ Definition spec_paths : list (list string * handler * bool) := [
 
 Definition seg_eqb := list_eqb String.eqb.
 
+(* strip_prefix l segs = Some r  iff  segs = l ++ r *)
+Fixpoint strip_prefix (l segs : list string) : option (list string) :=
+  match l, segs with
+  | [], _ => Some segs
+  | a :: l', x :: segs' => if String.eqb a x then strip_prefix l' segs' else None
+  | _ :: _, [] => None
+  end.
+
+(* exactly the listed path, or (where a slash form exists) the listed path followed by one non-empty segment *)
 Fixpoint spec_find (tbl : list (list string * handler * bool)) (segs : list string) : class :=
   match tbl with
   | [] => Relay
   | (base, h, sl) :: r =>
-      if seg_eqb segs ("" :: base) then Hijack h None
-      else if sl && Nat.eqb (List.length segs) (S (S (List.length base))) && seg_eqb (firstn (S (List.length base)) segs) ("" :: base)
-              && negb (String.eqb (last segs "") "")
-           then Hijack h (Some (last segs ""))
-      else spec_find r segs
+      match strip_prefix ("" :: base) segs with
+      | Some [] => Hijack h None
+      | Some [x] => if sl && negb (String.eqb x "") then Hijack h (Some x) else spec_find r segs
+      | _ => spec_find r segs
+      end
   end.
 
 Definition spec_class (m p : string) : class :=
